@@ -89,6 +89,8 @@ class LocationAction(object):
         self.__lock = threading.Lock()
         # the timestamps of the hits that have passed can_trigger, and are still being processed
         self.__claimed: List[int] = []
+        # the timestamps of the latest recorded fires (not only the newest: see can_trigger)
+        self.__recent: List[int] = []
 
     @property
     def id(self) -> str:
@@ -181,12 +183,12 @@ class LocationAction(object):
                 return False
 
             # Have we fired too quickly?
-            last_fire = max([self.__stats.last_fire] + self.__claimed)
-            if last_fire != 0:
-                # the timestamp of a hit is taken when its event starts; with several threads a hit can reach this point
-                # after a hit that started later, so the difference can be negative
-                time_since_last = abs(ts - last_fire)
-                if time_since_last < self.__fire_period_ns():
+            # The timestamp of a hit is taken when its event starts; with several threads a hit can reach this point
+            # after hits that started later (so the difference can be negative), even after several of them have been
+            # recorded: it is compared with every recent fire and every hit in progress, not only with the newest one.
+            period = self.__fire_period_ns()
+            for other in [self.__stats.last_fire] + self.__recent + self.__claimed:
+                if other != 0 and abs(ts - other) < period:
                     return False
 
             self.__claimed.append(ts)
@@ -203,6 +205,7 @@ class LocationAction(object):
         with self.__lock:
             self.__release(ts)
             self.__stats.fire(ts)
+            self.__recent = (self.__recent + [ts])[-16:]
 
     def release(self, ts):
         """
